@@ -66,6 +66,14 @@ def run(ctx, res):
                 'all results must be equal; distinct = distinct (mapping, spelling); non-trivial = non-empty result')
     known = set(ctx.known)
     cases = [mapcase.gen_core_case(ctx.rng, hard=ctx.rng.random() < 0.3) for _ in range(ctx.scale(50, 1200))]
+    # multi-valued constant shortcuts whose values are of different kinds (IRI, literal) on one predicate-object map
+    for c in cases:
+        if ctx.rng.random() < 0.35:
+            t = ctx.rng.choice(c['doc'])
+            t['poms'].append({'preds': [mapcase.tm_const_iri(EX + 'p/src')] + ([mapcase.tm_const_iri(EX + 'p/src2')] if ctx.rng.random() < 0.3 else []),
+                              'objs': [{'m': mapcase.tm_const_iri(EX + 'o/dataset'), 'lang': None, 'dt': None, 'joins': []},
+                                       {'m': {'k': 'const', 'v': 'HR database', 'ck': 'lit', 'tt': ''}, 'lang': None, 'dt': None, 'joins': []}],
+                              'graphs': ([mapcase.tm_const_iri(EX + 'g/meta'), mapcase.tm_const_iri(EX + 'g/meta2')] if ctx.rng.random() < 0.3 else [])})
     batch = family.Batch(ctx)
     base = batch.run(cases)
     wd = common.workdir()
